@@ -89,10 +89,38 @@ def _module_constant(repo: Repo, f: FuncInfo, name: str) -> ast.expr | None:
     return None
 
 
+def _attr_constant(repo: Repo, T: Types, f: FuncInfo, e: ast.Attribute) -> str | None:
+    """String value of `self.X` / `cls.X` / `Class.X` (class-level constant) or `module.X` (module-level constant)."""
+    key = ("attr_const", id(repo), f.module.name, f.cls.fq if f.cls else "", norm(e))
+    if key in _cache:
+        return _cache[key]
+    out = None
+    classes = []
+    if isinstance(e.value, ast.Name) and e.value.id in ("self", "cls") and f.cls is not None:
+        classes = repo.mro(f.cls)
+    elif isinstance(e.value, (ast.Name, ast.Attribute)):
+        fq = repo.resolve_name(f.module, e)
+        if fq:
+            m2, _, attr = fq.rpartition(".")
+            om = repo.modules.get(m2)
+            if om is not None and attr in om.constants:
+                out = _const_str(om.constants[attr])
+            ci = repo.classes.get(m2)
+            if ci is not None:
+                classes = repo.mro(ci)
+    for ci in classes:
+        if e.attr in ci.class_attrs:
+            out = _const_str(ci.class_attrs[e.attr])
+            break
+    _cache[key] = out
+    return out
+
+
 def _is_local(f: FuncInfo, name: str) -> bool:
-    if name in f.param_names:
-        return True
-    return any(isinstance(n, ast.Name) and n.id == name and isinstance(n.ctx, ast.Store) for n in own_nodes(f.node))
+    key = ("stored_names", id(f.node))
+    if key not in _cache:
+        _cache[key] = set(f.param_names) | {n.id for n in own_nodes(f.node) if isinstance(n, ast.Name) and isinstance(n.ctx, ast.Store)}
+    return name in _cache[key]
 
 
 def _lambda_iterable(f: FuncInfo) -> ast.expr | None:
@@ -187,12 +215,20 @@ def name_flow(repo: Repo) -> Flow:
                 out.add("NAME")
             elif e.attr == "module" and f.module.name.endswith("file_import.converter") and isinstance(e.value, ast.Name) and e.value.id == "module":
                 out.add("NAME")
+            else:
+                c = _attr_constant(repo, T, f, e)
+                if c is not None and c.endswith("."):
+                    out.add("DOT")
         elif isinstance(e, ast.Call):
             fn = e.func
             if isinstance(fn, ast.Attribute) and fn.attr in NAME_METHODS and not e.args:
                 out.add("NAME")
             elif (isinstance(fn, ast.Name) and fn.id in NAME_FUNCS) or (isinstance(fn, ast.Attribute) and fn.attr in NAME_FUNCS):
                 out.add("NAME")
+            elif isinstance(fn, ast.Attribute) and fn.attr in ("pop", "get") and e.args and _const_str(e.args[0]) == "aliases":
+                out.add("NAME")  # the public `aliases` option of draw(): a mapping keyed by module names
+        elif isinstance(e, ast.Subscript) and isinstance(e.ctx, ast.Load) and _const_str(e.slice) == "aliases":
+            out.add("NAME")
         elif isinstance(e, ast.Constant):
             if isinstance(e.value, str) and e.value.endswith("."):
                 out.add("DOT")
@@ -484,6 +520,9 @@ class Origins:
             got = self._attribute(f, e, d, seen, pos)
             if got is not None:
                 return got
+            c = _attr_constant(self.repo, self.T, f, e)
+            if c is not None and not pos:
+                return [(f, ast.Constant(value=c), "value")]
             return [(f, e, "value" if not pos else "opaque")]
         if isinstance(e, ast.Call):
             nm = _call_name(e)
@@ -1241,16 +1280,27 @@ def _relation_atoms(repo: Repo, f: FuncInfo, formula, hay: str, others: set[str]
     return safe, raw
 
 
-def _selected_from(repo: Repo, f: FuncInfo, name: str) -> tuple[str, list[ast.expr]] | None:
+def _selected_from(repo: Repo, f: FuncInfo, name: str) -> tuple[str, list[ast.expr], bool] | None:
     """`name` is one element of a filtered collection - `next(v for v in xs if c(v))`, `[v for v in xs if c(v)][0]`,
-    `max((v for ..), key=len)`, also through an intermediate local: the (variable, conditions) that hold for it."""
+    `max((v for ..), key=len)`, `next(filter(pred, xs), None)`, also through an intermediate local: the (variable, conditions that
+    hold for it, whether it may be None instead)."""
     d = local_defs(repo, f).get(name)
+    maybe_none = False
     for _ in range(6):
         if d is None:
             return None
-        if isinstance(d, ast.Call) and _call_name(d) in ("next", "min", "max", "sorted", "list", "tuple", "reversed", "iter") and d.args and isinstance(d.func, ast.Name):
+        if isinstance(d, ast.Call) and isinstance(d.func, ast.Name) and _call_name(d) in ("next", "min", "max", "sorted", "list", "tuple", "reversed", "iter") and d.args:
+            if _call_name(d) == "next" and len(d.args) == 2:
+                if not (isinstance(d.args[1], ast.Constant) and d.args[1].value is None):
+                    return None
+                maybe_none = True
+            for k in d.keywords:
+                if k.arg == "default":
+                    if not (isinstance(k.value, ast.Constant) and k.value.value is None):
+                        return None
+                    maybe_none = True
             d = d.args[0]
-        elif isinstance(d, ast.Subscript) and (not isinstance(d.slice, ast.Slice) or True):
+        elif isinstance(d, ast.Subscript):
             d = d.value
         elif isinstance(d, ast.Call) and _call_name(d) in ("pop", "popleft") and isinstance(d.func, ast.Attribute):
             d = d.func.value
@@ -1259,16 +1309,28 @@ def _selected_from(repo: Repo, f: FuncInfo, name: str) -> tuple[str, list[ast.ex
         else:
             break
     if isinstance(d, (ast.GeneratorExp, ast.ListComp, ast.SetComp)) and len(d.generators) == 1 and isinstance(d.elt, ast.Name) and dotted(d.generators[0].target) == d.elt.id:
-        return d.elt.id, list(d.generators[0].ifs)
-    if isinstance(d, ast.Call) and _call_name(d) == "filter" and len(d.args) == 2 and isinstance(d.args[0], ast.Lambda) and len(d.args[0].args.args) == 1:
-        return d.args[0].args.args[0].arg, [d.args[0].body]
+        return d.elt.id, list(d.generators[0].ifs), maybe_none
+    if isinstance(d, ast.Call) and _call_name(d) == "filter" and len(d.args) == 2:
+        pred = d.args[0]
+        if isinstance(pred, ast.Name):
+            ld = local_defs(repo, f).get(pred.id)
+            if isinstance(ld, ast.Lambda):
+                pred = ld
+            else:
+                nested = [g for g in f.module.all_funcs if g.outer is f and g.name == pred.id and isinstance(g.node, ast.FunctionDef)]
+                if len(nested) == 1 and len(nested[0].param_names) == 1:
+                    body = [x for x in nested[0].node.body if not (isinstance(x, ast.Expr) and isinstance(x.value, ast.Constant))]
+                    if len(body) == 1 and isinstance(body[0], ast.Return) and body[0].value is not None:
+                        return nested[0].param_names[0], [body[0].value], maybe_none
+        if isinstance(pred, ast.Lambda) and len(pred.args.args) == 1:
+            return pred.args.args[0].arg, [pred.body], maybe_none
     return None
 
 
 def _site_facts(repo: Repo, f: FuncInfo, node: ast.AST, other: str):
     """Path condition of `node` (private helper predicates inlined) plus what selecting X from a filtered collection
     (`X = next(v for v in .. if test(v))`, `X = [v for v in .. if test(v)][0]`) establishes for X."""
-    from core.guards import f_and, to_formula
+    from core.guards import atom as mk, f_and, f_or, to_formula
 
     from .common import copy_prop, guard_formula
 
@@ -1277,10 +1339,10 @@ def _site_facts(repo: Repo, f: FuncInfo, node: ast.AST, other: str):
     if not isinstance(f.node, ast.Lambda):
         sel = _selected_from(repo, f, other)
         if sel is not None:
-            v, conds_ = sel
+            v, conds_, maybe_none = sel
             others.add(v)
-            for cond in conds_:
-                facts.append(to_formula(cond, copy_prop(f)))
+            held = f_and([to_formula(cond, copy_prop(f)) for cond in conds_])
+            facts.append(f_or([mk(f"{other} is None"), held]) if maybe_none else held)
     return f_and(facts), others
 
 
